@@ -102,12 +102,11 @@ def visit (g : AGraph) : Nat → St → Nat → St
         else execSync s m
       if (s.recOf m).anc == (s.recOf m).idx then popThrough s m else s
 
-/-- GatherAvailableAncestors (the parents list is consumed, as in the engine) -/
+/-- GatherAvailableAncestors ([[AsyncParentModules]] is only read) -/
 def gather (g : AGraph) : Nat → St → Nat → List Nat → St × List Nat
   | 0, s, _, ex => (s, ex)
   | fuel + 1, s, m, ex =>
     let ps := (s.recOf m).parents
-    let s := s.modRec m (fun r => { r with parents := [] })
     ps.foldl (fun (acc : St × List Nat) p =>
       let (s, ex) := acc
       if ex.contains p then (s, ex)
